@@ -518,6 +518,9 @@ class SlotInterp:
             if name == 'splice' and fn.call_obj(n):
                 self.splice(fn, n, st, binding, reported)
                 return
+            if short(cal.get('key', '')) == 'std::for_each' and len(fn.call_args(n)) == 3:
+                if self.for_each(fn, n, st, binding, reported):
+                    return
             if name == 'swap':
                 ops = [a for a in fn.call_args(n)]
                 if fn.call_obj(n) and cal.get('method'):
@@ -560,6 +563,43 @@ class SlotInterp:
                     st.counts, st.recycled = out.counts, out.recycled      # what the helper recycled / moved counts for the caller
                     st.vars = {v: e for v, e in st.vars.items() if e in st.elems}
             return
+
+    def for_each(self, fn, n, st, binding, reported):
+        """std::for_each(L.begin(), L.end(), f) over a slot list: the body of f (lambda or functor, read through functor_body) is
+        interpreted once for every state an element of L can be in, with its parameter denoting that element; afterwards every
+        element of L is in the joined result state, their number unchanged."""
+        args = fn.call_args(n)
+        srcs = [self.iter_source(fn, a) for a in args[:2]]
+        Ls = []
+        for want, sn in zip((('begin', 'cbegin'), ('end', 'cend')), srcs):
+            so = fn.nodes[sn]
+            if so['cls'] != 'CXXMemberCallExpr' or not fn.call_obj(sn) or (fn.callee(sn) or {}).get('name') not in want:
+                return False
+            Ls.append(self.list_key(fn, fn.call_obj(sn), binding))
+        if Ls[0] is None or Ls[0] != Ls[1]:
+            return False
+        L = Ls[0]
+        g = fn.functor_body(args[2])
+        if g is None or len(g.params) != 1 or L in SHARED:
+            self.ob('P-untracked', fn, n, False, 'std::for_each over slot list %s with a callable the analysis cannot read' % L, reported)
+            return True
+        c = self.fold_tracked(st, L)
+        if c[0] is None:
+            return True
+        outk = None
+        tag = 'each:%d' % n
+        for k in ([c[0]] if c[0] in (F, E) else [F, E]):
+            s2 = st.copy()
+            s2.elems[tag] = [k, L, tag, 'must']
+            s2.vars[g.params[0]['id']] = tag
+            out = self.run(g, s2, binding)
+            e = out.elems.get(tag)
+            if e is None or out.lists.get(L) != s2.lists.get(L):
+                self.ob('P-untracked', fn, n, False, 'the body of the std::for_each over %s moves slots between lists' % L, reported)
+                return True
+            outk = kjoin(outk, e[0])
+        st.lists[L] = norm((outk, c[1], c[2]))
+        return True
 
     def advance(self, fn, n, vid, st):
         eid = st.vars[vid]
